@@ -729,6 +729,57 @@ func c7CloneCarries(c *Ctx, rule string) {
 			},
 			Inline:    func(h *ssa.Function) bool { return h.Pkg != nil && h.Pkg.Pkg.Path() == CorePath },
 			InlineAny: func(h *ssa.Function) bool { r := RecvNamed(h); return r != nil && r.Obj() == jn.Obj() },
+			Branch: func(cond ssa.Value, taken bool, st *ConcState) string {
+				// is there any context to copy: len(enc.buf.Bytes()) / enc.buf.Len() compared with 0
+				pol := taken
+				for k := 0; k < 8; k++ {
+					if u, ok := cond.(*ssa.UnOp); ok && u.Op == token.NOT {
+						cond, pol = u.X, !pol
+						continue
+					}
+					if nx := st.Step(cond); nx != nil {
+						cond = nx
+						continue
+					}
+					break
+				}
+				bo, ok := cond.(*ssa.BinOp)
+				if !ok {
+					return ""
+				}
+				if k, known := st.Int(bo.Y); !known || k != 0 {
+					return ""
+				}
+				cl, ok := resolve(st, bo.X).(*ssa.Call)
+				if !ok {
+					return ""
+				}
+				var buf ssa.Value
+				switch {
+				case CallBuiltin(cl) == "len":
+					if src, ok := resolve(st, cl.Call.Args[0]).(*ssa.Call); ok && IsCallTo(src, "(*go.uber.org/zap/buffer.Buffer).Bytes", "(*go.uber.org/zap/buffer.Buffer).String") {
+						buf = Args(src)[0]
+					}
+				case IsCallTo(cl, "(*go.uber.org/zap/buffer.Buffer).Len"):
+					buf = Args(cl)[0]
+				}
+				if buf == nil || !fromRecv(st.Desc(buf)) {
+					return ""
+				}
+				empty := false
+				switch bo.Op {
+				case token.EQL, token.LEQ:
+					empty = pol
+				case token.NEQ, token.GTR:
+					empty = !pol
+				default:
+					return ""
+				}
+				if empty {
+					return "context-empty"
+				}
+				return ""
+			},
 			Event: func(in ssa.Instruction, st *ConcState) string {
 				switch x := in.(type) {
 				case *ssa.Call:
@@ -781,7 +832,7 @@ func c7CloneCarries(c *Ctx, rule string) {
 		}
 		var bad []string
 		for _, sq := range seqs {
-			if sq != "copy-context ; ret(openNamespaces=1,spaced=1,config=same)" {
+			if sq != "copy-context ; ret(openNamespaces=1,spaced=1,config=same)" && sq != "context-empty ; ret(openNamespaces=1,spaced=1,config=same)" {
 				bad = append(bad, sq)
 			}
 		}
